@@ -244,3 +244,36 @@ func VerifAutoSaveHistory(args []string) {
 	s4 := verifSession(nil, a, b, opts)
 	vAssert(verifSaved(s4) == want, "history/auto-load-after-completed-save-restores-something-else")
 }
+
+func init() {
+	verifHarness["VerifAutoSaveLong"] = VerifAutoSaveLong
+}
+
+// VerifAutoSaveLong: what auto-save writes auto-load reads back, also when lines are long: a named function longer
+// than the value-length limit (functions are saved whatever their length), long strings under the limit, bindings
+// that sort after them. args: value-length limit, length of the long function body, length of the long string
+func VerifAutoSaveLong(args []string) {
+	limit, fnLen, strLen := verifAtoi(args[0]), verifAtoi(args[1]), verifAtoi(args[2])
+	a, b := int64(vRange("a", 6, 7)), int64(-3)
+	vFSEnable()
+	opts := Options{AutoSave: true, AutoLoad: true, MaxValueLen: limit}
+	body := "n"
+	for len(body) < fnLen {
+		body += " + 1"
+	}
+	inputs := []string{"a1 = a", "func longfn(n) {" + body + "}", "m1 = \"" + strings.Repeat("s", strLen) + "\"", "z9 = [b, 2]"}
+	s1 := verifStateWith(nil, a, b)
+	s1.MaxValueLen = limit
+	out := &strings.Builder{}
+	for _, in := range inputs {
+		_, _, _, _ = EvalOne(context.Background(), s1, in, out, Options{All: true, ShowEval: true, NoColor: true})
+	}
+	killed, err := verifHookRun(s1, opts, -1, "", nil)
+	vAssert(!killed && err == nil, "long/save-failed")
+	want := verifSaved(s1)
+	s2 := verifStateWith(nil, a, b)
+	s2.MaxValueLen = limit
+	_ = AutoLoad(s2, opts)
+	vReach("long state reloaded")
+	vAssert(verifSaved(s2) == want, "long/auto-load-restores-something-else")
+}
